@@ -2,33 +2,36 @@
    and name never yields a database.  The first table's full name stays in the name index through every later step of the
    build (names of tables never change, the index only grows), so the second add_table is refused and the error leaves
    every enclosing loop. *)
-From PyDBML Require Import PyStr Py Heap Classes Database Tools PP Actions Build GenClasses GenGrammar Entry MonadFacts ToolsFacts RuleFacts ContainerInv ContainerFull TableInv BuildInv.
+From PyDBML Require Import PyStr Py Heap Classes Database Tools PP Actions Build GenClasses GenGrammar Entry MonadFacts ToolsFacts RuleFacts ContainerInv ContainerFull TableInv BuildInv BuildLinks.
 From Coq Require Import Lia.
 Import ListNotations.
 
 (* ====================== D1 ====================== *)
 
 (* ---- C06 at the level of documents: two table blueprints with the same schema and name never build ---- *)
-Definition bp_full (bp : pyv) : option pystr :=
-  match bp with PVBlue 7 dd => Some (bp_schema dd ++ 46%N :: fstr (fstr_of dd "name")) | _ => None end.
+(* the keys under which a table blueprint's table is registered: schema.name and, if present, the alias *)
+Definition bp_keys (bp : pyv) : list pystr :=
+  match bp with
+  | PVBlue 7 dd => (bp_schema dd ++ 46%N :: fstr (fstr_of dd "name")) ::
+                   (if truthy (or_none (fstr_of dd "alias")) then [fstr (or_none (fstr_of dd "alias"))] else [])
+  | _ => []
+  end.
 
-(* tables keep their full name *)
+(* tables keep their keys *)
 Definition Rn (h h' : heap) : Prop :=
-  forall t tb, h_table h t = Some tb -> exists tb', h_table h' t = Some tb' /\ table_full_name tb' = table_full_name tb.
+  forall t tb, h_table h t = Some tb -> exists tb', h_table h' t = Some tb' /\ names_of tb' = names_of tb.
 Lemma Rn_refl h : Rn h h. Proof. intros t tb H. eauto. Qed.
 Lemma Rn_trans a b c : Rn a b -> Rn b c -> Rn a c.
 Proof. intros H1 H2 t tb H. destruct (H1 _ _ H) as (tb1 & A & B). destruct (H2 _ _ A) as (tb2 & C & D). exists tb2. split; [exact C|congruence]. Qed.
-Lemma names_full a b : names_of a = names_of b -> table_full_name a = table_full_name b.
-Proof. unfold names_of. intros H. inversion H. reflexivity. Qed.
 Lemma Rn_Rext h h' : Rext h h' -> Rn h h'.
-Proof. intros R t tb H. destruct (Rext_table_fwd _ _ _ _ R H) as (tb' & A & _ & _ & _ & E). exists tb'. split; [exact A|apply names_full; exact E]. Qed.
+Proof. intros R t tb H. destruct (Rext_table_fwd _ _ _ _ R H) as (tb' & A & _ & _ & _ & E). exists tb'. split; [exact A|exact E]. Qed.
 Lemma Rn_dview h h' : same_dview h h' -> Rn h h'.
 Proof.
   intros S t tb H. destruct (same_dview_table _ _ _ _ (same_dview_sym _ _ S) H) as (tb' & A & _ & E).
-  exists tb'. split; [exact A|apply names_full; exact E].
+  exists tb'. split; [exact A|exact E].
 Qed.
 
-Definition nview (ob : obj) : option pystr := match ob with OTable tb => Some (table_full_name tb) | _ => None end.
+Definition nview (ob : obj) : option (list pystr) := match ob with OTable tb => Some (names_of tb) | _ => None end.
 Lemma Rn_store h o ob ob' : nth_error h o = Some ob -> nview ob' = nview ob -> Rn h (replace_nth o ob' h).
 Proof.
   intros Ho E t tb H. destruct (Nat.eq_dec o t) as [->|N].
@@ -70,7 +73,7 @@ Proof. intros G h h' r H. apply Rn_Rext. eapply G; eauto. Qed.
 Lemma gn_of_dview {A} (m : M A) : guar same_dview m -> guar Rn m.
 Proof. intros G h h' r H. apply Rn_dview. eapply G; eauto. Qed.
 
-Definition named (nm : pystr) (h : heap) (t : oid) : Prop := exists tb, h_table h t = Some tb /\ table_full_name tb = nm.
+Definition named (nm : pystr) (h : heap) (t : oid) : Prop := exists tb, h_table h t = Some tb /\ In nm (names_of tb).
 Lemma named_Rn nm h h' t : Rn h h' -> named nm h t -> named nm h' t.
 Proof. intros R (tb & A & B). destruct (R _ _ A) as (tb' & A' & B'). exists tb'. split; [exact A'|congruence]. Qed.
 
@@ -97,17 +100,17 @@ Proof.
   apply (g_bind _ Rn_trans); [apply gn_upd_index|intros _]. apply gn_of_dview, gd_table_add_index.
 Qed.
 
-Lemma build_table_named d bp nm h h' t : good_table_bp bp -> bp_full bp = Some nm -> build_table d bp h = (h', Ok t) -> named nm h' t.
+Lemma build_table_named d bp nm h h' t : good_table_bp bp -> In nm (bp_keys bp) -> build_table d bp h = (h', Ok t) -> named nm h' t.
 Proof.
-  intros Hg Hnm H. destruct bp as [s0|b0|z0|f0| |d0|l0|tag dd]; try discriminate Hnm.
+  intros Hg Hnm H. destruct bp as [s0|b0|z0|f0| |d0|l0|tag dd]; try contradiction.
   destruct (N.eq_dec tag 7) as [->|Nt].
-  2:{ exfalso. destruct tag as [|p]; [discriminate Hnm|].
-      destruct p as [q|q|]; try discriminate Hnm. destruct q as [r0|r0|]; try discriminate Hnm. destruct r0; try discriminate Hnm. congruence. }
-  cbn in Hnm. inversion Hnm; subst nm. clear Hnm. unfold build_table in H.
+  2:{ exfalso. destruct tag as [|p]; [contradiction|].
+      destruct p as [q|q|]; try contradiction. destruct q as [r0|r0|]; try contradiction. destruct r0; try contradiction; try congruence. }
+  unfold build_table in H.
   apply bindM_inv in H as [[e [_ H]]|[nt [h1 [H1 H]]]]; [discriminate H|].
   apply bindM_inv in H as [[e [_ H]]|[t0 [h2 [H2 H]]]]; [discriminate H|].
   (* the table as allocated *)
-  assert (N2 : named (bp_schema dd ++ 46%N :: fstr (fstr_of dd "name")) h2 t0).
+  assert (N2 : named nm h2 t0).
   { unfold new_table in H2. cbn [iterM] in H2.
     apply bindM_inv in H2 as [[e [_ H2]]|[n [hn [_ H2]]]]; [discriminate H2|].
     unfold bindM at 1 in H2. unfold alloc in H2. cbv beta iota in H2.
@@ -115,7 +118,7 @@ Proof.
     apply bindM_inv in H2 as [[e [_ H2]]|[u2 [hy [Hy H2]]]]; [discriminate H2|]. unfold ret in Hy. injection Hy as E2 _. subst hy.
     apply bindM_inv in H2 as [[e [_ H2]]|[u3 [hz [Hz H2]]]]; [discriminate H2|]. unfold ret in H2. injection H2 as E3 E4. subst.
     eapply named_Rn; [apply Rn_Rext; eapply gR_set_note_parent; eauto|].
-    eexists. split; [unfold h_table; rewrite nth_error_app2 by lia; rewrite Nat.sub_diag; reflexivity|]. reflexivity. }
+    eexists. split; [unfold h_table; rewrite nth_error_app2 by lia; rewrite Nat.sub_diag; reflexivity|]. exact Hnm. }
   pose proof (gn_build_table_body d t0 _ _ _ _ _ H) as R.
   assert (t = t0).
   { apply bindM_inv in H as [[e [_ H]]|[u [hx [_ H]]]]; [discriminate H|]. apply bindM_inv in H as [[e [_ H]]|[u' [hy [_ H]]]]; [discriminate H|].
@@ -177,7 +180,7 @@ Lemma J_InvDB d h : J d h -> exists db, InvDB h d db /\ h_database h d = Some db
 Proof. intros (db & ID & _). exists db. split; [exact ID|]. destruct ID as [[A _ _ _ _ _] _ _]. exact A. Qed.
 
 (* a successful step leaves the new table's full name in the index *)
-Lemma step_establishes d bp nm h h' u : J d h -> good_table_bp bp -> bp_full bp = Some nm -> step d bp h = (h', Ok u) -> NameIn nm d h'.
+Lemma step_establishes d bp nm h h' u : J d h -> good_table_bp bp -> In nm (bp_keys bp) -> step d bp h = (h', Ok u) -> NameIn nm d h'.
 Proof.
   intros HJ Hg Hnm H. unfold step in H. apply bindM_inv in H as [[e [_ H]]|[t [h1 [H1 H2]]]]; [discriminate H|].
   destruct (build_table_keeps_J d bp h h1 (Ok t) Hg HJ H1) as [HJ1 _]. pose proof (build_table_named d bp nm h h1 t Hg Hnm H1) as (tb & Ht & Hn).
@@ -188,7 +191,7 @@ Proof.
   assert (Hin : In t (d_tables db')) by (change (In t (klist KTable db')); rewrite (Hl1 ltac:(discriminate)); apply in_or_app; right; left; reflexivity).
   destruct ID' as [[Idb' _ _ _ If' _] _ _]. destruct (If' t Hin) as (tb' & Ht' & _ & Hkeys).
   destruct (gn_db_add d t _ _ _ Hrun t tb Ht) as (tb'' & A & B). rewrite Ht' in A. inversion A; subst tb''.
-  exists db', t. split; [exact Idb'|]. apply Hkeys. left. congruence.
+  exists db', t. split; [exact Idb'|]. apply Hkeys. rewrite B. exact Hn.
 Qed.
 
 (* a later successful step keeps it there *)
@@ -204,13 +207,18 @@ Proof.
 Qed.
 
 (* a second table with a name that is already in the index is refused *)
-Lemma step_clashes d bp nm h h' u : J d h -> good_table_bp bp -> NameIn nm d h -> bp_full bp = Some nm -> step d bp h <> (h', Ok u).
+Lemma step_clashes d bp nm h h' u : J d h -> good_table_bp bp -> NameIn nm d h -> In nm (bp_keys bp) -> step d bp h <> (h', Ok u).
 Proof.
   intros HJ Hg (db & t0 & Hdb & Hget) Hnm H. unfold step in H. apply bindM_inv in H as [[e [_ H]]|[t [h1 [H1 H2]]]]; [discriminate H|].
   pose proof (gdb_build_table d bp Hg _ _ _ H1 db Hdb) as Hdb1.
   pose proof (build_table_named d bp nm h h1 t Hg Hnm H1) as (tb & Ht & Hn).
-  assert (Hhas : dict_has (table_full_name tb) (d_table_dict db) = true) by (unfold dict_has; rewrite Hn, Hget; reflexivity).
-  pose proof (add_table_name_clash h1 d db t tb Hdb1 Ht (or_introl Hhas)) as Hc.
+  assert (Hhas : dict_has (table_full_name tb) (d_table_dict db) = true
+                 \/ (truthy (t_alias tb) = true /\ dict_has (fstr (t_alias tb)) (d_table_dict db) = true)).
+  { unfold names_of in Hn. destruct Hn as [E|Hn].
+    - left. unfold dict_has. rewrite E, Hget. reflexivity.
+    - right. destruct (truthy (t_alias tb)) eqn:Ea; [|destruct Hn]. destruct Hn as [E|[]]. split; [reflexivity|].
+      unfold dict_has. rewrite E, Hget. reflexivity. }
+  pose proof (add_table_name_clash h1 d db t tb Hdb1 Ht Hhas) as Hc.
   rewrite (db_add_dispatch h1 d t (OTable tb) (h_table_nth _ _ _ Ht)) in H2. rewrite Hc in H2. discriminate H2.
 Qed.
 
@@ -236,7 +244,7 @@ Qed.
 
 (* the tables phase of build_database cannot succeed on two blueprints with the same schema and name *)
 Theorem tables_phase_rejects_duplicates d l1 bp1 l2 bp2 l3 nm h h' u :
-  Forall good_table_bp (l1 ++ bp1 :: l2 ++ bp2 :: l3) -> bp_full bp1 = Some nm -> bp_full bp2 = Some nm -> J d h ->
+  Forall good_table_bp (l1 ++ bp1 :: l2 ++ bp2 :: l3) -> In nm (bp_keys bp1) -> In nm (bp_keys bp2) -> J d h ->
   iterM (step d) (l1 ++ bp1 :: l2 ++ bp2 :: l3) h <> (h', Ok u).
 Proof.
   intros Hg N1 N2 HJ H.
@@ -253,10 +261,11 @@ Proof.
   exact (step_clashes d bp2 nm hc hd tt HJc Gb2 HNc N2 D1).
 Qed.
 
-(* C06: whatever else the document contains, a document with two tables of the same schema and name never yields a database *)
+(* C06: whatever else the document contains, a document with two tables sharing a key — the same schema and name, the same alias,
+   or the alias of one equal to the full name of the other — never yields a database *)
 Theorem build_database_rejects_duplicate_tables s allow sq dq h0 h1 dd l1 bp1 l2 bp2 l3 nm :
   WW h0 -> (forall t tb, h_table h0 t = Some tb -> NoDup (names_of tb)) -> Forall good_table_bp (ps_tables s) ->
-  ps_tables s = l1 ++ bp1 :: l2 ++ bp2 :: l3 -> bp_full bp1 = Some nm -> bp_full bp2 = Some nm ->
+  ps_tables s = l1 ++ bp1 :: l2 ++ bp2 :: l3 -> In nm (bp_keys bp1) -> In nm (bp_keys bp2) ->
   build_database s allow sq dq h0 <> (h1, Ok dd).
 Proof.
   intros HW Hgood Hg Hl N1 N2 H. unfold build_database in H. unfold bindM at 1 in H. unfold new_database, alloc in H. cbv beta iota in H.
@@ -276,9 +285,608 @@ Qed.
 Theorem parser_rejects_duplicate_tables source allow sq dq h0 h1 d st l1 bp1 l2 bp2 l3 nm :
   WW h0 -> (forall t tb, h_table h0 t = Some tb -> NoDup (names_of tb)) ->
   blueprints_of source allow h0 = (h0, Ok st) -> Forall good_table_bp (ps_tables st) ->
-  ps_tables st = l1 ++ bp1 :: l2 ++ bp2 :: l3 -> bp_full bp1 = Some nm -> bp_full bp2 = Some nm ->
+  ps_tables st = l1 ++ bp1 :: l2 ++ bp2 :: l3 -> In nm (bp_keys bp1) -> In nm (bp_keys bp2) ->
   parser_parse source allow sq dq h0 <> (h1, Ok d).
 Proof.
   intros HW Hgood Hb Hg Hl N1 N2 H. unfold parser_parse, bindM in H. rewrite Hb in H.
   exact (build_database_rejects_duplicate_tables st allow sq dq h0 h1 d l1 bp1 l2 bp2 l3 nm HW Hgood Hg Hl N1 N2 H).
+Qed.
+
+(* ====================== F1: enums ====================== *)
+
+(* ---- two enum blueprints with the same schema and name never build ---- *)
+Definition bp_enum_key (bp : pyv) : option (option pystr * option pystr) :=
+  match bp with
+  | PVBlue 9 dd => Some (fstr_of dd "name", Some (match fstr_of dd "schema" with Some s => s | None => K "public" end))
+  | _ => None
+  end.
+
+(* enums keep their name and schema *)
+Definition Re (h h' : heap) : Prop :=
+  forall e en, h_enum h e = Some en -> exists en', h_enum h' e = Some en' /\ e_name en' = e_name en /\ e_schema en' = e_schema en.
+Lemma Re_refl h : Re h h. Proof. intros e en H. eauto. Qed.
+Lemma Re_trans a b c : Re a b -> Re b c -> Re a c.
+Proof. intros H1 H2 e en H. destruct (H1 _ _ H) as (e1 & A & B & C). destruct (H2 _ _ A) as (e2 & D & E & F). exists e2. repeat split; congruence. Qed.
+
+Definition eview (ob : obj) : option (option pystr * option pystr) := match ob with OEnum en => Some (e_name en, e_schema en) | _ => None end.
+Lemma h_enum_nth h c cc : h_enum h c = Some cc <-> nth_error h c = Some (OEnum cc).
+Proof. unfold h_enum. destruct (nth_error h c) as [[]|]; split; intros H; try discriminate; inversion H; reflexivity. Qed.
+Lemma Re_store h o ob ob' : nth_error h o = Some ob -> eview ob' = eview ob -> Re h (replace_nth o ob' h).
+Proof.
+  intros Ho E e en H. destruct (Nat.eq_dec o e) as [->|N].
+  - apply h_enum_nth in H. rewrite Ho in H. inversion H; subst ob. destruct ob'; try discriminate E. cbn in E. inversion E.
+    exists e0. split; [unfold h_enum; rewrite (nth_replace_same' _ _ _ _ Ho); reflexivity|]. split; congruence.
+  - exists en. split; [|split; reflexivity]. unfold h_enum in *. rewrite nth_replace_other by exact N. exact H.
+Qed.
+Lemma Re_app h ob : Re h (h ++ [ob]).
+Proof.
+  intros e en H. exists en. split; [|split; reflexivity]. unfold h_enum in *. rewrite nth_error_app1; [exact H|].
+  destruct (nth_error h e) eqn:E; [eapply nth_some_lt; eauto|discriminate].
+Qed.
+
+(* every primitive step of the enum phase *)
+Lemma ge_alloc ob : guar Re (alloc ob). Proof. intros h h' r H. unfold alloc in H. inversion H; subst. apply Re_app. Qed.
+Lemma ge_set_note_parent n p : guar Re (set_note_parent n p).
+Proof.
+  intros h h' r H. unfold set_note_parent, get_note, bindM, lookup in H. destruct (nth_error h n) as [ob|] eqn:E.
+  - destruct ob; inversion H; subst; try apply Re_refl. eapply Re_store; [exact E|reflexivity].
+  - inversion H; subst. apply Re_refl.
+Qed.
+Lemma ge_enum_store e f :
+  guar Re (do! x <- get_enum e ;;
+           match e_items x with
+           | Some its => store e (OEnum (mkEnum (e_database x) (e_name x) (e_schema x) (e_comment x) (Some (f its))))
+           | None => raise EAttributeError
+           end).
+Proof.
+  intros h h' r H. unfold get_enum, bindM, lookup in H.
+  destruct (nth_error h e) as [[t|c|i|rf|en|ei|n|s|x|p|g|d]|] eqn:E; try (inversion H; subst; apply Re_refl).
+  cbv beta iota in H. unfold ret in H. destruct (e_items en); inversion H; subst; try apply Re_refl.
+  eapply Re_store; [exact E|reflexivity].
+Qed.
+Lemma ge_set_obj_database o v : guar Re (set_obj_database o v).
+Proof.
+  intros h h' r H. unfold set_obj_database, bindM, lookup in H. destruct (nth_error h o) as [ob|] eqn:E.
+  - destruct ob; inversion H; subst; try apply Re_refl; (eapply Re_store; [exact E|reflexivity]).
+  - inversion H; subst. apply Re_refl.
+Qed.
+Lemma ge_upd_db d f : guar Re (upd_db d f).
+Proof.
+  intros h h' r H. unfold upd_db, get_database, bindM, lookup in H. destruct (nth_error h d) as [ob|] eqn:E.
+  - destruct ob; inversion H; subst; try apply Re_refl. eapply Re_store; [exact E|reflexivity].
+  - inversion H; subst. apply Re_refl.
+Qed.
+
+Ltac ge :=
+  repeat first [ apply ge_alloc | apply ge_set_note_parent | apply ge_set_obj_database | apply ge_upd_db | apply ge_enum_store
+               | apply (g_ro _ Re_refl); solve [ro_any]
+               | apply (g_ro _ Re_refl), ro_lift
+               | apply (g_bind _ Re_trans); [|intros ?]
+               | apply (g_iterM _ Re_refl Re_trans); intros ?
+               | apply (g_mapMM _ Re_refl Re_trans); intros ?
+               | match goal with |- guar _ (match ?x with _ => _ end) => destruct x end
+               | match goal with |- guar _ (if ?x then _ else _) => destruct x end ].
+
+Lemma ge_new_note_from a : guar Re (new_note_from a). Proof. unfold new_note_from. ge. Qed.
+Lemma ge_new_enumitem n nt c : guar Re (new_enumitem n nt c). Proof. unfold new_enumitem. ge; apply ge_new_note_from. Qed.
+Lemma ge_enum_add_item e a : guar Re (enum_add_item e a).
+Proof.
+  unfold enum_add_item. destruct a as [o|s].
+  - apply (g_bind _ Re_trans); [apply (g_ro _ Re_refl), ro_lookup|intros ob].
+    destruct ob; try (apply (g_ro _ Re_refl), ro_ret). apply (ge_enum_store e (fun its => its ++ [o])).
+  - apply (g_bind _ Re_trans); [apply ge_new_enumitem|intros i]. apply (ge_enum_store e (fun its => its ++ [i])).
+Qed.
+Lemma ge_build_enum bp : guar Re (build_enum bp).
+Proof.
+  unfold build_enum, build_enum_item, new_enum. ge; try first [apply ge_new_enumitem | apply ge_enum_add_item | apply ge_new_note_from].
+Qed.
+Lemma ge_db_add d o : guar Re (db_add d o).
+Proof.
+  unfold db_add. apply (g_bind _ Re_trans); [apply (g_ro _ Re_refl), ro_lookup|intros ob].
+  destruct ob; try (apply (g_ro _ Re_refl), ro_raise).
+  - unfold db_add_table. ge.
+  - unfold db_add_reference. ge.
+  - unfold db_add_enum. ge.
+  - unfold db_add_sticky_note. ge.
+  - unfold db_add_project, db_delete_project. ge.
+  - unfold db_add_table_group. ge.
+Qed.
+
+(* ====================== F2: enums ====================== *)
+
+Definition enum_keyed (key : option pystr * option pystr) (h : heap) (e : oid) : Prop :=
+  exists en, h_enum h e = Some en /\ (e_name en, e_schema en) = key.
+Lemma enum_keyed_Re key h h' e : Re h h' -> enum_keyed key h e -> enum_keyed key h' e.
+Proof. intros R (en & A & B). destruct (R _ _ A) as (en' & A' & B1 & B2). exists en'. split; [exact A'|]. rewrite B1, B2. exact B. Qed.
+
+Lemma build_enum_keyed bp key h h' e : bp_enum_key bp = Some key -> build_enum bp h = (h', Ok e) -> enum_keyed key h' e.
+Proof.
+  intros Hk H. destruct bp as [s0|b0|z0|f0| |d0|l0|tag dd]; try discriminate Hk.
+  destruct (N.eq_dec tag 9) as [->|Nt].
+  2:{ exfalso. destruct tag as [|p]; [discriminate Hk|].
+      destruct p as [q|q|]; try discriminate Hk. destruct q as [r0|r0|]; try discriminate Hk. destruct r0 as [r1|r1|]; try discriminate Hk.
+      destruct r1; discriminate Hk || congruence. }
+  cbn in Hk. inversion Hk; subst key. clear Hk. unfold build_enum in H.
+  apply bindM_inv in H as [[e0 [_ H]]|[items [h1 [_ H]]]]; [discriminate H|].
+  unfold new_enum in H. unfold bindM at 1 in H. unfold alloc in H. cbv beta iota in H.
+  apply bindM_inv in H as [[e0 [_ H]]|[u [h2 [H2 H]]]]; [discriminate H|]. unfold ret in H. inversion H; subst. clear H.
+  eapply enum_keyed_Re; [eapply (g_iterM _ Re_refl Re_trans); [intros a; apply ge_enum_add_item|exact H2]|].
+  eexists. split; [unfold h_enum; rewrite nth_error_app2 by lia; rewrite Nat.sub_diag; reflexivity|reflexivity].
+Qed.
+
+Definition estep (d : oid) (bp : pyv) : M unit := do! e <- build_enum bp ;; db_add d e.
+Definition EnumIn (key : option pystr * option pystr) (d : oid) (h : heap) : Prop :=
+  exists db e, h_database h d = Some db /\ In e (d_enums db) /\ enum_keyed key h e.
+
+Lemma pres_estep d bp : pres d (fun _ => True) (estep d bp).
+Proof. apply pres_build_then_add. apply gR_build_enum. Qed.
+
+Lemma estep_establishes d bp key h h' u : J d h -> bp_enum_key bp = Some key -> estep d bp h = (h', Ok u) -> EnumIn key d h'.
+Proof.
+  intros HJ Hk H. unfold estep in H. apply bindM_inv in H as [[e0 [_ H]]|[e [h1 [H1 H2]]]]; [discriminate H|].
+  assert (HJ1 : J d h1) by (eapply J_Rext; [eapply gR_build_enum; eauto|exact HJ]).
+  pose proof (build_enum_keyed bp key h h1 e Hk H1) as (en & Hen & Hkey).
+  destruct (J_InvDB _ _ HJ1) as (db1 & ID1 & Hdb1).
+  destruct (db_add_step h1 d db1 e ID1) as [[e0 R]|(db' & h2 & ob & k & Hrun & ID' & Ho & Hkd & Hm & Hl1 & _)].
+  { rewrite R in H2. discriminate H2. }
+  rewrite Hrun in H2. inversion H2; subst h2. pose proof (proj1 (h_enum_nth _ _ _) Hen) as Hn. rewrite Hn in Ho. inversion Ho; subst ob.
+  cbn in Hkd. inversion Hkd; subst k.
+  assert (Hin : In e (d_enums db')) by (change (In e (klist KEnum db')); rewrite (Hl1 ltac:(discriminate)); apply in_or_app; right; left; reflexivity).
+  destruct ID' as [[Idb' _ _ _ _ _] _ _]. exists db', e. split; [exact Idb'|]. split; [exact Hin|].
+  eapply enum_keyed_Re; [eapply ge_db_add; eauto|]. exists en. auto.
+Qed.
+
+Lemma estep_keeps d bp key h h' u : J d h -> EnumIn key d h -> estep d bp h = (h', Ok u) -> EnumIn key d h'.
+Proof.
+  intros HJ (db & e0 & Hdb & Hin & Hkeyed) H. unfold estep in H. apply bindM_inv in H as [[e1 [_ H]]|[e [h1 [H1 H2]]]]; [discriminate H|].
+  pose proof (gR_build_enum _ _ _ _ H1) as R1.
+  assert (HJ1 : J d h1) by (eapply J_Rext; eauto).
+  pose proof (Rext_db _ _ _ _ R1 Hdb) as Hdb1.
+  pose proof (enum_keyed_Re key h h1 e0 (ge_build_enum bp _ _ _ H1) Hkeyed) as Hk1.
+  destruct (J_InvDB _ _ HJ1) as (db1 & ID1 & Hdb1'). assert (db1 = db) by congruence. subst db1.
+  destruct (db_add_step h1 d db e ID1) as [[e1 R]|(db' & h2 & ob & k & Hrun & ID' & _ & _ & _ & Hl1 & _ & Hoth & _)].
+  { rewrite R in H2. discriminate H2. }
+  rewrite Hrun in H2. inversion H2; subst h2. destruct ID' as [[Idb' _ _ _ _ _] _ _].
+  exists db', e0. split; [exact Idb'|]. split; [apply (klist_grows k e db db' KEnum Hoth Hl1 ltac:(discriminate)); exact Hin|].
+  eapply enum_keyed_Re; [eapply ge_db_add; eauto|exact Hk1].
+Qed.
+
+Lemma ostr_eqb_refl (a : option pystr) : ostr_eqb a a = true.
+Proof. destruct a; cbn; [apply str_eqb_refl|reflexivity]. Qed.
+
+Lemma estep_clashes d bp key h h' u : J d h -> EnumIn key d h -> bp_enum_key bp = Some key -> estep d bp h <> (h', Ok u).
+Proof.
+  intros HJ (db & e0 & Hdb & Hin & Hkeyed) Hk H. unfold estep in H. apply bindM_inv in H as [[e1 [_ H]]|[e [h1 [H1 H2]]]]; [discriminate H|].
+  pose proof (gR_build_enum _ _ _ _ H1) as R1. pose proof (Rext_db _ _ _ _ R1 Hdb) as Hdb1.
+  pose proof (enum_keyed_Re key h h1 e0 (ge_build_enum bp _ _ _ H1) Hkeyed) as (en0 & Hen0 & Hk0).
+  pose proof (build_enum_keyed bp key h h1 e Hk H1) as (en & Hen & Hke).
+  assert (Hex : existsb (fun e2 => match h_enum h1 e2 with
+                                   | Some ee => ostr_eqb (e_name ee) (e_name en) && ostr_eqb (e_schema ee) (e_schema en)
+                                   | None => false end) (d_enums db) = true).
+  { apply existsb_exists. exists e0. split; [exact Hin|]. rewrite Hen0. rewrite <- Hk0 in Hke. inversion Hke as [[E1 E2]].
+    rewrite E1, E2, !ostr_eqb_refl. reflexivity. }
+  pose proof (add_enum_clash h1 d db e en Hdb1 Hen Hex) as Hc.
+  rewrite (db_add_dispatch h1 d e (OEnum en) (proj1 (h_enum_nth _ _ _) Hen)) in H2. rewrite Hc in H2. discriminate H2.
+Qed.
+
+Lemma iter_esteps_J d l h h' u : J d h -> iterM (estep d) l h = (h', Ok u) -> J d h'.
+Proof. intros HJ H. destruct (pres_iterM d (fun _ => True) (estep d) l (pres_estep d) _ _ _ HJ Logic.I H) as [X _]. exact X. Qed.
+Lemma iter_esteps_keep d key l : forall h h' u, J d h -> EnumIn key d h -> iterM (estep d) l h = (h', Ok u) -> EnumIn key d h'.
+Proof.
+  induction l as [|bp l IH]; intros h h' u HJ HN H; cbn [iterM] in H.
+  - inversion H; subst. exact HN.
+  - apply bindM_inv in H as [[e [_ H]]|[[] [h1 [H1 H]]]]; [discriminate H|].
+    eapply IH; [|eapply estep_keeps; eauto|exact H]. destruct (pres_estep d bp _ _ _ HJ Logic.I H1) as [X _]. exact X.
+Qed.
+
+Theorem build_database_rejects_duplicate_enums s allow sq dq h0 h1 dd l1 bp1 l2 bp2 l3 key :
+  WW h0 -> (forall t tb, h_table h0 t = Some tb -> NoDup (names_of tb)) ->
+  ps_enums s = l1 ++ bp1 :: l2 ++ bp2 :: l3 -> bp_enum_key bp1 = Some key -> bp_enum_key bp2 = Some key ->
+  build_database s allow sq dq h0 <> (h1, Ok dd).
+Proof.
+  intros HW Hgood Hl N1 N2 H. unfold build_database in H. unfold bindM at 1 in H. unfold new_database, alloc in H. cbv beta iota in H.
+  set (db0 := mkDatabase [] [] [] [] [] [] None allow sq dq) in *. set (d := length h0) in *.
+  assert (HJ : J d (h0 ++ [ODatabase db0])).
+  { exists db0. split; [apply fresh_database_full; exact Hgood|].
+    intros k. eapply W_Rext; [|apply HW]. eapply (gR_alloc (ODatabase db0)); [exact Logic.I|reflexivity]. }
+  apply bindM_inv in H as [[e [_ H]]|[u1 [ha [A1 _]]]]; [discriminate H|]. rewrite Hl in A1. destruct u1.
+  change (iterM (estep d) (l1 ++ bp1 :: l2 ++ bp2 :: l3) (h0 ++ [ODatabase db0]) = (ha, Ok tt)) in A1.
+  destruct (iterM_app_ok _ _ _ _ _ _ A1) as (hb & B1 & B2).
+  pose proof (iter_esteps_J d l1 _ hb tt HJ B1) as HJb.
+  cbn [iterM] in B2. apply bindM_inv in B2 as [[e [_ B2]]|[[] [hc [C1 B2]]]]; [discriminate B2|].
+  pose proof (estep_establishes d bp1 key hb hc tt HJb N1 C1) as HNc.
+  destruct (pres_estep d bp1 _ _ _ HJb Logic.I C1) as [HJc _].
+  destruct (iterM_app_ok _ _ _ _ _ _ B2) as (hd & D1 & D2).
+  pose proof (iter_esteps_J d l2 hc hd tt HJc D1) as HJd.
+  pose proof (iter_esteps_keep d key l2 hc hd tt HJc HNc D1) as HNd.
+  cbn [iterM] in D2. apply bindM_inv in D2 as [[e [_ D2]]|[[] [he [E1 D2]]]]; [discriminate D2|].
+  exact (estep_clashes d bp2 key hd he tt HJd HNd N2 E1).
+Qed.
+
+(* ====================== G1: table groups ====================== *)
+
+(* ---- two table-group blueprints with the same name never build ---- *)
+Definition bp_group_key (bp : pyv) : option pystr := match bp with PVBlue 11 dd => fstr_of dd "name" | _ => None end.
+
+Definition Rg (h h' : heap) : Prop :=
+  forall g gg, h_group h g = Some gg -> exists gg', h_group h' g = Some gg' /\ g_name gg' = g_name gg.
+Lemma Rg_refl h : Rg h h. Proof. intros e en H. eauto. Qed.
+Lemma Rg_trans a b c : Rg a b -> Rg b c -> Rg a c.
+Proof. intros H1 H2 e en H. destruct (H1 _ _ H) as (e1 & A & B). destruct (H2 _ _ A) as (e2 & D & E). exists e2. split; congruence. Qed.
+Definition gview (ob : obj) : option pystr := match ob with OGroup g => Some (g_name g) | _ => None end.
+Lemma Rg_store h o ob ob' : nth_error h o = Some ob -> gview ob' = gview ob -> Rg h (replace_nth o ob' h).
+Proof.
+  intros Ho E e en H. destruct (Nat.eq_dec o e) as [->|N].
+  - apply h_group_nth in H. rewrite Ho in H. inversion H; subst ob. destruct ob'; try discriminate E. cbn in E. inversion E.
+    exists g. split; [unfold h_group; rewrite (nth_replace_same' _ _ _ _ Ho); reflexivity|congruence].
+  - exists en. split; [|reflexivity]. unfold h_group in *. rewrite nth_replace_other by exact N. exact H.
+Qed.
+Lemma Rg_app h ob : Rg h (h ++ [ob]).
+Proof.
+  intros e en H. exists en. split; [|reflexivity]. unfold h_group in *. rewrite nth_error_app1; [exact H|].
+  destruct (nth_error h e) eqn:E; [eapply nth_some_lt; eauto|discriminate].
+Qed.
+Lemma gg_alloc ob : guar Rg (alloc ob). Proof. intros h h' r H. unfold alloc in H. inversion H; subst. apply Rg_app. Qed.
+Lemma gg_set_obj_database o v : guar Rg (set_obj_database o v).
+Proof.
+  intros h h' r H. unfold set_obj_database, bindM, lookup in H. destruct (nth_error h o) as [ob|] eqn:E.
+  - destruct ob; inversion H; subst; try apply Rg_refl; (eapply Rg_store; [exact E|reflexivity]).
+  - inversion H; subst. apply Rg_refl.
+Qed.
+Lemma gg_upd_db d f : guar Rg (upd_db d f).
+Proof.
+  intros h h' r H. unfold upd_db, get_database, bindM, lookup in H. destruct (nth_error h d) as [ob|] eqn:E.
+  - destruct ob; inversion H; subst; try apply Rg_refl. eapply Rg_store; [exact E|reflexivity].
+  - inversion H; subst. apply Rg_refl.
+Qed.
+Ltac gg :=
+  repeat first [ apply gg_alloc | apply gg_set_obj_database | apply gg_upd_db
+               | apply (g_ro _ Rg_refl); solve [ro_any]
+               | apply (g_ro _ Rg_refl), ro_lift
+               | apply (g_ro _ Rg_refl), ro_group_items
+               | apply (g_bind _ Rg_trans); [|intros ?]
+               | match goal with |- guar _ (match ?x with _ => _ end) => destruct x end
+               | match goal with |- guar _ (if ?x then _ else _) => destruct x end ].
+Lemma gg_build_group d bp : guar Rg (build_group d bp).
+Proof. unfold build_group, new_group. gg. Qed.
+Lemma gg_db_add d o : guar Rg (db_add d o).
+Proof.
+  unfold db_add. apply (g_bind _ Rg_trans); [apply (g_ro _ Rg_refl), ro_lookup|intros ob].
+  destruct ob; try (apply (g_ro _ Rg_refl), ro_raise).
+  - unfold db_add_table. gg.
+  - unfold db_add_reference. gg.
+  - unfold db_add_enum. gg.
+  - unfold db_add_sticky_note. gg.
+  - unfold db_add_project, db_delete_project. gg.
+  - unfold db_add_table_group. gg.
+Qed.
+
+Definition group_keyed (key : pystr) (h : heap) (g : oid) : Prop := exists gg, h_group h g = Some gg /\ g_name gg = key.
+Lemma group_keyed_Rg key h h' g : Rg h h' -> group_keyed key h g -> group_keyed key h' g.
+Proof. intros R (gg & A & B). destruct (R _ _ A) as (gg' & A' & B'). exists gg'. split; [exact A'|congruence]. Qed.
+
+Lemma build_group_keyed d bp key h h' g : bp_group_key bp = Some key -> build_group d bp h = (h', Ok g) -> group_keyed key h' g.
+Proof.
+  intros Hk H. destruct bp as [s0|b0|z0|f0| |d0|l0|tag dd]; try discriminate Hk.
+  destruct (N.eq_dec tag 11) as [->|Nt].
+  2:{ exfalso. destruct tag as [|p]; [discriminate Hk|].
+      destruct p as [q|q|]; try discriminate Hk. destruct q as [r0|r0|]; try discriminate Hk. destruct r0 as [r1|r1|]; try discriminate Hk.
+      destruct r1; discriminate Hk || congruence. }
+  cbn in Hk. unfold build_group in H.
+  apply bindM_inv in H as [[e0 [_ H]]|[items [h1 [_ H]]]]; [discriminate H|].
+  apply bindM_inv in H as [[e0 [_ H]]|[nt [h2 [_ H]]]]; [discriminate H|].
+  apply bindM_inv in H as [[e0 [_ H]]|[n [h3 [_ H]]]]; [discriminate H|].
+  rewrite Hk in H. unfold new_group, alloc in H. inversion H; subst.
+  eexists. split; [unfold h_group; rewrite nth_error_app2 by lia; rewrite Nat.sub_diag; reflexivity|reflexivity].
+Qed.
+
+Definition gstep (d : oid) (bp : pyv) : M unit := do! g <- build_group d bp ;; db_add d g.
+Definition GroupIn (key : pystr) (d : oid) (h : heap) : Prop :=
+  exists db g, h_database h d = Some db /\ In g (d_table_groups db) /\ group_keyed key h g.
+
+Lemma pres_gstep d bp : pres d (fun _ => True) (gstep d bp).
+Proof. apply (pres_build_then_add d (build_group d)). apply gR_build_group. Qed.
+
+Lemma gstep_establishes d bp key h h' u : J d h -> bp_group_key bp = Some key -> gstep d bp h = (h', Ok u) -> GroupIn key d h'.
+Proof.
+  intros HJ Hk H. unfold gstep in H. apply bindM_inv in H as [[e0 [_ H]]|[g [h1 [H1 H2]]]]; [discriminate H|].
+  assert (HJ1 : J d h1) by (eapply J_Rext; [eapply gR_build_group; eauto|exact HJ]).
+  pose proof (build_group_keyed d bp key h h1 g Hk H1) as (gg & Hgg & Hkey).
+  destruct (J_InvDB _ _ HJ1) as (db1 & ID1 & Hdb1).
+  destruct (db_add_step h1 d db1 g ID1) as [[e0 R]|(db' & h2 & ob & k & Hrun & ID' & Ho & Hkd & Hm & Hl1 & _)].
+  { rewrite R in H2. discriminate H2. }
+  rewrite Hrun in H2. inversion H2; subst h2. pose proof (proj1 (h_group_nth _ _ _) Hgg) as Hn. rewrite Hn in Ho. inversion Ho; subst ob.
+  cbn in Hkd. inversion Hkd; subst k.
+  assert (Hin : In g (d_table_groups db')) by (change (In g (klist KGroup db')); rewrite (Hl1 ltac:(discriminate)); apply in_or_app; right; left; reflexivity).
+  destruct ID' as [[Idb' _ _ _ _ _] _ _]. exists db', g. split; [exact Idb'|]. split; [exact Hin|].
+  eapply group_keyed_Rg; [eapply gg_db_add; eauto|]. exists gg. auto.
+Qed.
+
+Lemma gstep_keeps d bp key h h' u : J d h -> GroupIn key d h -> gstep d bp h = (h', Ok u) -> GroupIn key d h'.
+Proof.
+  intros HJ (db & g0 & Hdb & Hin & Hkeyed) H. unfold gstep in H. apply bindM_inv in H as [[e1 [_ H]]|[g [h1 [H1 H2]]]]; [discriminate H|].
+  pose proof (gR_build_group _ _ _ _ _ H1) as R1.
+  assert (HJ1 : J d h1) by (eapply J_Rext; eauto).
+  pose proof (Rext_db _ _ _ _ R1 Hdb) as Hdb1.
+  pose proof (group_keyed_Rg key h h1 g0 (gg_build_group d bp _ _ _ H1) Hkeyed) as Hk1.
+  destruct (J_InvDB _ _ HJ1) as (db1 & ID1 & Hdb1'). assert (db1 = db) by congruence. subst db1.
+  destruct (db_add_step h1 d db g ID1) as [[e1 R]|(db' & h2 & ob & k & Hrun & ID' & _ & _ & _ & Hl1 & _ & Hoth & _)].
+  { rewrite R in H2. discriminate H2. }
+  rewrite Hrun in H2. inversion H2; subst h2. destruct ID' as [[Idb' _ _ _ _ _] _ _].
+  exists db', g0. split; [exact Idb'|]. split; [apply (klist_grows k g db db' KGroup Hoth Hl1 ltac:(discriminate)); exact Hin|].
+  eapply group_keyed_Rg; [eapply gg_db_add; eauto|exact Hk1].
+Qed.
+
+Lemma gstep_clashes d bp key h h' u : J d h -> GroupIn key d h -> bp_group_key bp = Some key -> gstep d bp h <> (h', Ok u).
+Proof.
+  intros HJ (db & g0 & Hdb & Hin & Hkeyed) Hk H. unfold gstep in H. apply bindM_inv in H as [[e1 [_ H]]|[g [h1 [H1 H2]]]]; [discriminate H|].
+  pose proof (gR_build_group _ _ _ _ _ H1) as R1. pose proof (Rext_db _ _ _ _ R1 Hdb) as Hdb1.
+  pose proof (group_keyed_Rg key h h1 g0 (gg_build_group d bp _ _ _ H1) Hkeyed) as (gg0 & Hgg0 & Hk0).
+  pose proof (build_group_keyed d bp key h h1 g Hk H1) as (gg & Hgg & Hke).
+  assert (Hex : existsb (fun g2 => match h_group h1 g2 with Some x => str_eqb (g_name x) (g_name gg) | None => false end) (d_table_groups db) = true).
+  { apply existsb_exists. exists g0. split; [exact Hin|]. rewrite Hgg0, Hk0, Hke. apply str_eqb_refl. }
+  pose proof (add_group_clash h1 d db g gg Hdb1 Hgg Hex) as Hc.
+  rewrite (db_add_dispatch h1 d g (OGroup gg) (proj1 (h_group_nth _ _ _) Hgg)) in H2. rewrite Hc in H2. discriminate H2.
+Qed.
+
+(* ====================== G2: table groups ====================== *)
+
+Lemma iter_gsteps_J d l h h' u : J d h -> iterM (gstep d) l h = (h', Ok u) -> J d h'.
+Proof. intros HJ H. destruct (pres_iterM d (fun _ => True) (gstep d) l (pres_gstep d) _ _ _ HJ Logic.I H) as [X _]. exact X. Qed.
+Lemma iter_gsteps_keep d key l : forall h h' u, J d h -> GroupIn key d h -> iterM (gstep d) l h = (h', Ok u) -> GroupIn key d h'.
+Proof.
+  induction l as [|bp l IH]; intros h h' u HJ HN H; cbn [iterM] in H.
+  - inversion H; subst. exact HN.
+  - apply bindM_inv in H as [[e [_ H]]|[[] [h1 [H1 H]]]]; [discriminate H|].
+    eapply IH; [|eapply gstep_keeps; eauto|exact H]. destruct (pres_gstep d bp _ _ _ HJ Logic.I H1) as [X _]. exact X.
+Qed.
+
+Theorem build_database_rejects_duplicate_groups s allow sq dq h0 h1 dd l1 bp1 l2 bp2 l3 key :
+  WW h0 -> (forall t tb, h_table h0 t = Some tb -> NoDup (names_of tb)) -> Forall good_table_bp (ps_tables s) ->
+  ps_groups s = l1 ++ bp1 :: l2 ++ bp2 :: l3 -> bp_group_key bp1 = Some key -> bp_group_key bp2 = Some key ->
+  build_database s allow sq dq h0 <> (h1, Ok dd).
+Proof.
+  intros HW Hgood Hg Hl N1 N2 H. unfold build_database in H. unfold bindM at 1 in H. unfold new_database, alloc in H. cbv beta iota in H.
+  set (db0 := mkDatabase [] [] [] [] [] [] None allow sq dq) in *. set (d := length h0) in *.
+  assert (HJ : J d (h0 ++ [ODatabase db0])).
+  { exists db0. split; [apply fresh_database_full; exact Hgood|].
+    intros k. eapply W_Rext; [|apply HW]. eapply (gR_alloc (ODatabase db0)); [exact Logic.I|reflexivity]. }
+  apply bindM_inv in H as [[e [_ H]]|[u1 [ha [A1 H]]]]; [discriminate H|].
+  assert (HJa : J d ha).
+  { destruct (pres_iterM d (fun _ => True) (fun bp => do! e <- build_enum bp ;; db_add d e) (ps_enums s)
+                (fun bp => pres_build_then_add d build_enum bp (gR_build_enum bp)) _ _ _ HJ Logic.I A1) as [X _]. exact X. }
+  apply bindM_inv in H as [[e [_ H]]|[u2 [hb [B1 H]]]]; [discriminate H|]. destruct u2.
+  pose proof (iter_steps_J d (ps_tables s) ha hb tt Hg HJa B1) as HJb.
+  apply bindM_inv in H as [[e [_ H]]|[u3 [hc [C1 _]]]]; [discriminate H|]. rewrite Hl in C1. destruct u3.
+  change (iterM (gstep d) (l1 ++ bp1 :: l2 ++ bp2 :: l3) hb = (hc, Ok tt)) in C1.
+  destruct (iterM_app_ok _ _ _ _ _ _ C1) as (h2 & D1 & D2).
+  pose proof (iter_gsteps_J d l1 _ h2 tt HJb D1) as HJ2.
+  cbn [iterM] in D2. apply bindM_inv in D2 as [[e [_ D2]]|[[] [h3 [E1 D2]]]]; [discriminate D2|].
+  pose proof (gstep_establishes d bp1 key h2 h3 tt HJ2 N1 E1) as HN3.
+  destruct (pres_gstep d bp1 _ _ _ HJ2 Logic.I E1) as [HJ3 _].
+  destruct (iterM_app_ok _ _ _ _ _ _ D2) as (h4 & F1 & F2).
+  pose proof (iter_gsteps_J d l2 h3 h4 tt HJ3 F1) as HJ4.
+  pose proof (iter_gsteps_keep d key l2 h3 h4 tt HJ3 HN3 F1) as HN4.
+  cbn [iterM] in F2. apply bindM_inv in F2 as [[e [_ F2]]|[[] [h5 [G1 F2]]]]; [discriminate F2|].
+  exact (gstep_clashes d bp2 key h4 h5 tt HJ4 HN4 N2 G1).
+Qed.
+
+(* ====================== H1: unknown table ====================== *)
+
+(* ---- a reference that names a table no table blueprint defines never builds ---- *)
+
+(* every listed table answers only to keys of the table blueprints *)
+Definition TabKeys (allk : list pystr) (d : oid) (h : heap) : Prop :=
+  forall db t tb, h_database h d = Some db -> In t (d_tables db) -> h_table h t = Some tb -> incl (names_of tb) allk.
+
+Lemma TabKeys_dict allk d h db k t0 : Inv h d db -> TabKeys allk d h -> dict_get k (d_table_dict db) = Some t0 -> In k allk.
+Proof.
+  intros [[[Idb _ _ _ _ Ib] _ _] _] HT Hg. destruct (Ib k t0 Hg) as (Hin & tb & Ht & Hk). exact (HT db t0 tb Idb Hin Ht k Hk).
+Qed.
+
+Lemma TabKeys_gen allk d h h' db db' : Inv h d db -> h_database h' d = Some db' -> Rn h h' ->
+  (forall t, In t (d_tables db') -> In t (d_tables db) \/ (forall tb, h_table h' t = Some tb -> incl (names_of tb) allk)) ->
+  TabKeys allk d h -> TabKeys allk d h'.
+Proof.
+  intros [[[Idb _ _ _ If _] _ _] _] Hdb' R Hnew HT db2 t tb Hdb2 Hin Ht. rewrite Hdb' in Hdb2. inversion Hdb2; subst db2.
+  destruct (Hnew t Hin) as [Hold|Hn]; [|exact (Hn tb Ht)].
+  destruct (If t Hold) as (tb0 & Ht0 & _). destruct (R _ _ Ht0) as (tb' & Ht' & En). rewrite Ht in Ht'. inversion Ht'; subst tb'.
+  rewrite En. exact (HT db t tb0 Idb Hold Ht0).
+Qed.
+
+Definition keys_eq (ks : list pystr) (h : heap) (t : oid) : Prop := exists tb, h_table h t = Some tb /\ names_of tb = ks.
+Lemma keys_eq_Rn ks h h' t : Rn h h' -> keys_eq ks h t -> keys_eq ks h' t.
+Proof. intros R (tb & A & B). destruct (R _ _ A) as (tb' & A' & B'). exists tb'. split; [exact A'|congruence]. Qed.
+
+Lemma build_table_keys d bp h h' t : good_table_bp bp -> build_table d bp h = (h', Ok t) -> keys_eq (bp_keys bp) h' t.
+Proof.
+  intros Hg H. destruct bp as [s0|b0|z0|f0| |d0|l0|tag dd]; try discriminate H.
+  destruct (N.eq_dec tag 7) as [->|Nt].
+  2:{ exfalso. unfold build_table in H. destruct tag as [|p]; [discriminate H|].
+      destruct p as [q|q|]; try discriminate H. destruct q as [r0|r0|]; try discriminate H. destruct r0; try discriminate H. congruence. }
+  unfold build_table in H.
+  apply bindM_inv in H as [[e [_ H]]|[nt [h1 [H1 H]]]]; [discriminate H|].
+  apply bindM_inv in H as [[e [_ H]]|[t0 [h2 [H2 H]]]]; [discriminate H|].
+  assert (N2 : keys_eq (bp_keys (PVBlue 7 dd)) h2 t0).
+  { unfold new_table in H2. cbn [iterM] in H2.
+    apply bindM_inv in H2 as [[e [_ H2]]|[n [hn [_ H2]]]]; [discriminate H2|].
+    unfold bindM at 1 in H2. unfold alloc in H2. cbv beta iota in H2.
+    apply bindM_inv in H2 as [[e [_ H2]]|[u1 [hx [Hx H2]]]]; [discriminate H2|]. unfold ret in Hx. injection Hx as E1 _. subst hx.
+    apply bindM_inv in H2 as [[e [_ H2]]|[u2 [hy [Hy H2]]]]; [discriminate H2|]. unfold ret in Hy. injection Hy as E2 _. subst hy.
+    apply bindM_inv in H2 as [[e [_ H2]]|[u3 [hz [Hz H2]]]]; [discriminate H2|]. unfold ret in H2. injection H2 as E3 E4. subst.
+    eapply keys_eq_Rn; [apply Rn_Rext; eapply gR_set_note_parent; eauto|].
+    eexists. split; [unfold h_table; rewrite nth_error_app2 by lia; rewrite Nat.sub_diag; reflexivity|]. reflexivity. }
+  pose proof (gn_build_table_body d t0 _ _ _ _ _ H) as R.
+  assert (t = t0).
+  { apply bindM_inv in H as [[e [_ H]]|[u [hx [_ H]]]]; [discriminate H|]. apply bindM_inv in H as [[e [_ H]]|[u' [hy [_ H]]]]; [discriminate H|].
+    unfold ret in H. inversion H. reflexivity. }
+  subst t0. eapply keys_eq_Rn; eauto.
+Qed.
+
+Lemma gn_build_table d bp : good_table_bp bp -> guar Rn (build_table d bp).
+Proof.
+  intros Hg. unfold build_table.
+  destruct bp as [s0|b0|z0|f0| |d0|l0|tag dd]; try (apply (g_ro _ Rn_refl), ro_stuck).
+  destruct (N.eq_dec tag 7) as [->|Nt].
+  2:{ destruct tag as [|p]; [apply (g_ro _ Rn_refl), ro_stuck|].
+      destruct p as [q|q|]; try (apply (g_ro _ Rn_refl), ro_stuck). destruct q as [r0|r0|]; try (apply (g_ro _ Rn_refl), ro_stuck).
+      destruct r0; try (apply (g_ro _ Rn_refl), ro_stuck). congruence. }
+  apply (g_bind _ Rn_trans); [apply (g_ro _ Rn_refl), ro_lift|intros nt].
+  apply (g_bind _ Rn_trans); [apply gn_of_Rext, new_table_empty_Rext; exact Hg|intros t].
+  apply gn_build_table_body.
+Qed.
+
+(* one table step *)
+Lemma step_TabKeys allk d bp h h' r : J d h -> good_table_bp bp -> incl (bp_keys bp) allk -> TabKeys allk d h -> step d bp h = (h', r) -> TabKeys allk d h'.
+Proof.
+  intros HJ Hg Hk HT H. unfold step in H. apply bindM_inv in H as [[e [H1 _]]|[t [h1 [H1 H2]]]].
+  - destruct (J_InvDB _ _ HJ) as (db & ID & Hdb). destruct HJ as (db0 & I0). assert (db0 = db) by (destruct I0 as [[[A _ _ _ _ _] _ _] _]; congruence). subst db0.
+    eapply TabKeys_gen; [exact I0|exact (gdb_build_table d bp Hg _ _ _ H1 db Hdb)|exact (gn_build_table d bp Hg _ _ _ H1)| |exact HT]. intros t Hin; left; exact Hin.
+  - destruct HJ as (db & I). pose proof I as [[[Idb _ _ _ _ _] _ _] _].
+    assert (HT1 : TabKeys allk d h1).
+    { eapply TabKeys_gen; [exact I|exact (gdb_build_table d bp Hg _ _ _ H1 db Idb)|exact (gn_build_table d bp Hg _ _ _ H1)| |exact HT]. intros t0 Hin; left; exact Hin. }
+    destruct (build_table_keeps_J d bp h h1 (Ok t) Hg (ex_intro _ db I) H1) as [(db1 & I1) _].
+    pose proof (build_table_keys d bp h h1 t Hg H1) as Hkeys.
+    pose proof I1 as [ID1 _].
+    destruct (db_add_step h1 d db1 t ID1) as [[e R]|(db' & h2 & ob & k & Hrun & ID' & Ho & Hkd & Hm & Hl1 & _ & Hoth & _)].
+    { rewrite R in H2. inversion H2; subst. exact HT1. }
+    rewrite Hrun in H2. inversion H2; subst h2 r. destruct ID' as [[Idb' _ _ _ _ _] _ _].
+    eapply TabKeys_gen; [exact I1|exact Idb'|exact (gn_db_add d t _ _ _ Hrun)| |exact HT1].
+    intros t0 Hin. destruct Hkeys as (tb & Ht & En). rewrite (h_table_nth _ _ _ Ht) in Ho. inversion Ho; subst ob. cbn in Hkd. inversion Hkd; subst k.
+    change (In t0 (klist KTable db')) in Hin. rewrite (Hl1 ltac:(discriminate)) in Hin. apply in_app_or in Hin as [Hin|[<-|[]]]; [left; exact Hin|right].
+    intros tb' Ht'. destruct (gn_db_add d t _ _ _ Hrun t tb Ht) as (tb'' & A & B). rewrite Ht' in A. inversion A; subst tb''. rewrite B, En. exact Hk.
+Qed.
+
+(* ====================== H2: unknown table ====================== *)
+
+Lemma post_new_group n i c nt col : post (new_group n i c nt col) (kind_is KGroup).
+Proof. unfold new_group. apply alloc_post. reflexivity. Qed.
+Lemma post_new_reference ty c1 c2 n c u dl i : post (new_reference ty c1 c2 n c u dl i) (kind_is KRef).
+Proof. unfold new_reference. apply alloc_post. reflexivity. Qed.
+Ltac postk2 :=
+  repeat first [ apply post_new_group | apply post_new_reference | apply post_raise | apply post_stuck
+               | apply post_bind; intros ?
+               | match goal with |- post (match ?x with _ => _ end) _ => destruct x end
+               | match goal with |- post (if ?x then _ else _) _ => destruct x end ].
+Lemma post_build_group d bp : post (build_group d bp) (kind_is KGroup). Proof. unfold build_group. postk2. Qed.
+Lemma post_build_reference d bp : post (build_reference d bp) (kind_is KRef). Proof. unfold build_reference. postk2. Qed.
+
+(* building and adding something that is not a table *)
+Lemma nontable_step_TabKeys {A} allk d (b : A -> M oid) bp k h h' r :
+  guar Rext (b bp) -> post (b bp) (kind_is k) -> k <> KTable -> J d h -> TabKeys allk d h ->
+  (do! x <- b bp ;; db_add d x) h = (h', r) -> TabKeys allk d h'.
+Proof.
+  intros G P Nk HJ HT H. destruct HJ as (db & I). pose proof I as [[[Idb _ _ _ _ _] _ _] _].
+  apply bindM_inv in H as [[e [H1 _]]|[x [h1 [H1 H2]]]].
+  - pose proof (G _ _ _ H1) as R. eapply TabKeys_gen; [exact I|exact (Rext_db _ _ _ _ R Idb)|exact (Rn_Rext _ _ R)| |exact HT]. intros t Hin; left; exact Hin.
+  - pose proof (G _ _ _ H1) as R.
+    assert (HT1 : TabKeys allk d h1).
+    { eapply TabKeys_gen; [exact I|exact (Rext_db _ _ _ _ R Idb)|exact (Rn_Rext _ _ R)| |exact HT]. intros t Hin; left; exact Hin. }
+    pose proof (Inv_Rext _ _ _ _ R I) as I1. pose proof I1 as [ID1 _].
+    destruct (P _ _ _ H1) as (ob & Hob & Hkind).
+    destruct (db_add_step h1 d db x ID1) as [[e R']|(db' & h2 & ob' & k' & Hrun & ID' & Ho & Hkd & Hm & Hl1 & _ & Hoth & _)].
+    { rewrite R' in H2. inversion H2; subst. exact HT1. }
+    rewrite Hrun in H2. inversion H2; subst h2 r. destruct ID' as [[Idb' _ _ _ _ _] _ _].
+    rewrite Hob in Ho. inversion Ho; subst ob'. rewrite Hkind in Hkd. inversion Hkd; subst k'.
+    eapply TabKeys_gen; [exact I1|exact Idb'|exact (gn_db_add d x _ _ _ Hrun)| |exact HT1].
+    intros t0 Hin. left. change (In t0 (klist KTable db')) in Hin. destruct Hoth as [Hoo _]. rewrite (Hoo KTable) in Hin by congruence. exact Hin.
+Qed.
+
+Definition presT {A} (allk : list pystr) (d : oid) (m : M A) : Prop :=
+  forall h h' r, J d h -> TabKeys allk d h -> m h = (h', r) -> J d h' /\ TabKeys allk d h'.
+Lemma presT_bind {A B} allk d (m : M A) (f : A -> M B) : presT allk d m -> (forall a, presT allk d (f a)) -> presT allk d (bindM m f).
+Proof.
+  intros Hm Hf h h' r HJ HT H. apply bindM_inv in H as [[e [H1 _]]|[a [h1 [H1 H2]]]].
+  - eapply Hm; eauto.
+  - destruct (Hm _ _ _ HJ HT H1) as [HJ1 HT1]. eapply Hf; eauto.
+Qed.
+Lemma presT_iterM_in {A} allk d (f : A -> M unit) l : (forall a, In a l -> presT allk d (f a)) -> presT allk d (iterM f l).
+Proof.
+  induction l as [|x l IH]; intros Hf; cbn [iterM].
+  - intros h h' r HJ HT H. inversion H; subst. auto.
+  - apply presT_bind; [apply Hf; left; reflexivity|intros _; apply IH; intros a Ha; apply Hf; right; exact Ha].
+Qed.
+
+Lemma presT_nontable {A} allk d (b : A -> M oid) bp k : guar Rext (b bp) -> post (b bp) (kind_is k) -> k <> KTable ->
+  presT allk d (do! x <- b bp ;; db_add d x).
+Proof.
+  intros G P Nk h h' r HJ HT H. split; [|eapply nontable_step_TabKeys; eauto].
+  destruct (pres_build_then_add d b bp G _ _ _ HJ Logic.I H) as [X _]. exact X.
+Qed.
+Lemma presT_table allk d bp : good_table_bp bp -> incl (bp_keys bp) allk -> presT allk d (step d bp).
+Proof.
+  intros Hg Hk h h' r HJ HT H. split; [|eapply step_TabKeys; eauto].
+  destruct (pres_step d bp Hg _ _ _ HJ Logic.I H) as [X _]. exact X.
+Qed.
+
+(* the reference blueprint names a table under keys no table blueprint provides *)
+Definition ref_names_missing (allk : list pystr) (rb : pyv) : Prop :=
+  match rb with
+  | PVBlue 4 dd =>
+      exists t1n t2n c1 c2, fstr_of dd "table1" = Some t1n /\ fstr_of dd "table2" = Some t2n /\ fstr_of dd "col1" = Some c1 /\ fstr_of dd "col2" = Some c2 /\
+        let s1 := match fstr_of dd "schema1" with Some s => s | None => K "public" end in
+        ~ In t1n allk /\ ~ In (s1 ++ 46%N :: t1n) allk
+  | _ => False
+  end.
+
+Lemma build_reference_missing allk d rb h h' x : J d h -> TabKeys allk d h -> ref_names_missing allk rb -> build_reference d rb h <> (h', Ok x).
+Proof.
+  intros (db & I) HT Hm H. pose proof I as [[[Idb _ _ _ _ _] _ _] _].
+  destruct rb as [s0|b0|z0|f0| |d0|l0|tag dd]; try contradiction.
+  destruct (N.eq_dec tag 4) as [->|Nt].
+  2:{ destruct tag as [|p]; [contradiction|]. destruct p as [q|q|]; try contradiction. destruct q as [r0|r0|]; try contradiction. destruct r0; try contradiction; congruence. }
+  destruct Hm as (t1n & t2n & c1 & c2 & E1 & E2 & E3 & E4 & N1 & N2). unfold build_reference in H. rewrite E1, E2, E3, E4 in H.
+  assert (G1 : dict_get t1n (d_table_dict db) = None).
+  { destruct (dict_get t1n (d_table_dict db)) as [t0|] eqn:G; [|reflexivity]. exfalso. apply N1. eapply TabKeys_dict; eauto. }
+  assert (G2 : dict_get (match fstr_of dd "schema1" with Some s => s | None => K "public" end ++ 46%N :: t1n) (d_table_dict db) = None).
+  { match goal with |- dict_get ?k _ = None => destruct (dict_get k (d_table_dict db)) as [t0|] eqn:G; [|reflexivity] end. exfalso. apply N2. eapply TabKeys_dict; eauto. }
+  cbv beta iota zeta in H. unfold bindM at 1 in H.
+  match type of H with context [locate_table d ?s t1n h] =>
+    assert (L : locate_table d s t1n h = (h, Raise ETableNotFound)) by (apply (locate_table_missing h d db s t1n Idb G1); exact G2);
+    rewrite L in H end.
+  discriminate H.
+Qed.
+
+(* ====================== H3: unknown table ====================== *)
+
+Theorem build_database_rejects_unknown_table s allow sq dq h0 h1 dd l1 rb l2 :
+  WW h0 -> (forall t tb, h_table h0 t = Some tb -> NoDup (names_of tb)) -> Forall good_table_bp (ps_tables s) ->
+  ps_refs s = l1 ++ rb :: l2 -> ref_names_missing (flat_map bp_keys (ps_tables s)) rb ->
+  build_database s allow sq dq h0 <> (h1, Ok dd).
+Proof.
+  intros HW Hgood Hg Hl Hm H. set (allk := flat_map bp_keys (ps_tables s)) in *.
+  unfold build_database in H. unfold bindM at 1 in H. unfold new_database, alloc in H. cbv beta iota in H.
+  set (db0 := mkDatabase [] [] [] [] [] [] None allow sq dq) in *. set (d := length h0) in *.
+  assert (HJ : J d (h0 ++ [ODatabase db0])).
+  { exists db0. split; [apply fresh_database_full; exact Hgood|].
+    intros k. eapply W_Rext; [|apply HW]. eapply (gR_alloc (ODatabase db0)); [exact Logic.I|reflexivity]. }
+  assert (HT : TabKeys allk d (h0 ++ [ODatabase db0])).
+  { intros db t tb Hdb Hin. unfold h_database, d in Hdb. rewrite nth_error_app2 in Hdb by lia. rewrite Nat.sub_diag in Hdb. inversion Hdb; subst db. destruct Hin. }
+  rewrite Forall_forall in Hg.
+  (* enums *)
+  apply bindM_inv in H as [[e [_ H]]|[u1 [ha [A1 H]]]]; [discriminate H|].
+  destruct (presT_iterM_in allk d _ (ps_enums s) (fun bp _ => presT_nontable allk d build_enum bp KEnum (gR_build_enum bp) (post_build_enum bp) ltac:(discriminate)) _ _ _ HJ HT A1) as [HJa HTa].
+  (* tables *)
+  apply bindM_inv in H as [[e [_ H]]|[u2 [hb [B1 H]]]]; [discriminate H|].
+  assert (PT : forall bp, In bp (ps_tables s) -> presT allk d (step d bp)).
+  { intros bp Hin. apply presT_table; [apply Hg; exact Hin|]. intros k Hk. unfold allk. apply in_flat_map. exists bp. split; assumption. }
+  destruct (presT_iterM_in allk d (step d) (ps_tables s) PT _ _ _ HJa HTa B1) as [HJb HTb].
+  (* groups, sticky notes, project *)
+  apply bindM_inv in H as [[e [_ H]]|[u3 [hc [C1 H]]]]; [discriminate H|].
+  destruct (presT_iterM_in allk d _ (ps_groups s) (fun bp _ => presT_nontable allk d (build_group d) bp KGroup (gR_build_group d bp) (post_build_group d bp) ltac:(discriminate)) _ _ _ HJb HTb C1) as [HJc HTc].
+  apply bindM_inv in H as [[e [_ H]]|[u4 [hd [D1 H]]]]; [discriminate H|].
+  destruct (presT_iterM_in allk d _ (ps_stickies s) (fun bp _ => presT_nontable allk d build_sticky bp KSticky (gR_build_sticky bp) (post_build_sticky bp) ltac:(discriminate)) _ _ _ HJc HTc D1) as [HJd HTd].
+  apply bindM_inv in H as [[e [_ H]]|[u5 [he [E1 H]]]]; [discriminate H|].
+  assert (HJTe : J d he /\ TabKeys allk d he).
+  { destruct (ps_project s) as [bp|].
+    - exact (presT_nontable allk d build_project bp KProject (gR_build_project bp) (post_build_project bp) ltac:(discriminate) _ _ _ HJd HTd E1).
+    - inversion E1; subst. auto. }
+  destruct HJTe as [HJe HTe].
+  (* references: those before rb succeed, rb itself cannot *)
+  apply bindM_inv in H as [[e [_ H]]|[u6 [hf [F1 _]]]]; [discriminate H|]. rewrite Hl in F1. destruct u6.
+  destruct (iterM_app_ok _ _ _ _ _ _ F1) as (hg & G1 & G2).
+  destruct (presT_iterM_in allk d _ l1 (fun bp _ => presT_nontable allk d (build_reference d) bp KRef (gR_build_reference d bp) (post_build_reference d bp) ltac:(discriminate)) _ _ _ HJe HTe G1) as [HJg HTg].
+  cbn [iterM] in G2. apply bindM_inv in G2 as [[e [_ G2]]|[[] [hh [I1 _]]]]; [discriminate G2|].
+  apply bindM_inv in I1 as [[e [_ I1]]|[x [hi [K1 _]]]]; [discriminate I1|].
+  exact (build_reference_missing allk d rb hg hi x HJg HTg Hm K1).
 Qed.
